@@ -22,7 +22,7 @@ size_t scan_attr(const char *c) { return (IN.acc[R()] & 1) ? 1 : 0; }
 size_t scan_spnl(const char *c) { size_t p = IN.p[R()]; ASSUME(p <= rem(c)); return p; }
 size_t scan_key(const char *c) { size_t k = IN.k[R()]; ASSUME(k >= 1 && k < rem(c) && c[k] == '='); return k; }
 /* the value is non-empty where it starts (after the blanks that may follow '='); asked about such a blank, scan_value reports 0 (both by the lemma) */
-size_t scan_value(const char *c) { if (c[0] == ' ' || c[0] == '\t') { round_++; return 0; } size_t v = IN.v[R()]; ASSUME(v >= 1 && v <= rem(c)); round_++; return v; }
+size_t scan_value(const char *c) { if (c[0] == ' ' || c[0] == '\t') { round_++; return 0; } size_t v = IN.v[R()]; ASSUME(v <= rem(c)); round_++; return v; }      /* 0 is possible (lemma): attr_new must cope with an empty value */
 int main(void) {
 	IN_LOAD();
 	size_t len = IN.len; ASSUME(len <= N);
